@@ -23,7 +23,7 @@
 EXTENDS Integers, Sequences, FiniteSets, TLC
 
 CONSTANTS Slots, KVals, AVals, VVals, BadV, MaxBatch, MaxOps, Cfgs, Thr, Tmo,
-          WithFlusher, WithSwitch, WithGet, WithHandle, WithFlushOne, WithDrop, Dev, BatchFilter(_)
+          WithFlusher, WithSwitch, WithGet, WithHandle, WithFlushOne, WithDrop, WithRepair, Dev, BatchFilter(_)
 
 VARIABLES af, adi, adc, alo, ami, acf, aca, ape, ast, asl, aas, ahn, are, ahi,
           bf, bdi, bdc, blo, bmi, bcf, bca, bpe, bst, bsl, bas, bhn, bre, bhi
